@@ -68,6 +68,8 @@ Definition or_none {A} (l : list A) : option (list A) := match l with [] => None
 (* bool(x) for x : optional container *)
 Definition truthy {A} (o : option (list A)) : bool := match o with Some (_ :: _) => true | _ => false end.
 Definition is_some {A} (o : option A) : bool := match o with Some _ => true | None => false end.
+(* `if x:` guards: an empty container counts as absent *)
+Definition otruthy {A} (o : option (list A)) : option (list A) := if truthy o then o else None.
 Definition b2z (b : bool) : Z := if b then 1 else 0.
 
 (* [i; i+1; ...] of length n *)
@@ -272,14 +274,14 @@ Definition clause_render (i : Z) (c : clause) : list frag :=
     let '(asg, add, rem) := set_analyze v op prev in
     (if negb (is_some prev) && negb (is_some asg) && negb (is_some add) && negb (is_some rem)
      then [mk KAssign f [i]] else [])
-    ++ render_opts f i [(KAssign, is_some asg); (KPlus, is_some add); (KMinus, is_some rem)]
+    ++ render_opts f i [(KAssign, is_some asg); (KPlus, truthy add); (KMinus, truthy rem)]
   | CListUpd f v op prev =>
     let '(asg, pre, app) := list_analyze v op prev in
-    render_opts f i [(KAssign, is_some asg); (KPrepend, is_some pre); (KPlus, is_some app)]
+    render_opts f i [(KAssign, is_some asg); (KPrepend, truthy pre); (KPlus, truthy app)]
   | CMapUpd f v op prev =>
     let '(upd, rem) := map_analyze v op prev in
     if map_is_assignment v op prev then [mk KAssign f [i]]
-    else if is_some rem then [mk KMinus f [i]]
+    else if truthy rem then [mk KMinus f [i]]
     else render_mapputs f i (length (match upd with Some l => l | None => [] end))
   | CCounter f v prev => [mk (if v - counter_prev prev <? 0 then KMinus else KPlus) f [i]]
   | CDelField f => [mk KDelField f []]
@@ -317,14 +319,14 @@ Definition clause_ctx (i : Z) (c : clause) : list (Z * val) :=
     let '(asg, add, rem) := set_analyze v op prev in
     (if negb (is_some prev) && negb (is_some asg) && negb (is_some add) && negb (is_some rem)
      then [(i, VSet [])] else [])
-    ++ ctx_opts i [oset asg; oset add; oset rem]
+    ++ ctx_opts i [oset asg; oset (otruthy add); oset (otruthy rem)]
   | CListUpd _ v op prev =>
     let '(asg, pre, app) := list_analyze v op prev in
-    ctx_opts i [olist asg; olist pre; olist app]
+    ctx_opts i [olist asg; olist (otruthy pre); olist (otruthy app)]
   | CMapUpd _ v op prev =>
     let '(upd, rem) := map_analyze v op prev in
     if map_is_assignment v op prev then [(i, VMap [])]
-    else match rem with
+    else match otruthy rem with
          | Some r => [(i, VSet r)]
          | None => ctx_mapputs i (match upd with Some l => l | None => [] end) v
          end
@@ -393,12 +395,16 @@ Definition update_context_id (i : Z) (s : stmt) : stmt :=
   fold_left (fun st p => let '(l, j) := renumber (ctr st) (get_part p st) in set_part p l j st)
             (renum_parts (sk s)) (set_part PWhere (s_where s) i s).
 
-Definition part_render (l : list (Z * clause)) : list frag := flat_map (fun ic => clause_render (fst ic) (snd ic)) l.
+(* InsertStatement.__unicode__ renders a.insert_tuple() = (field, context_id): one placeholder per assignment *)
+Definition clause_render_in (k : skind) (i : Z) (c : clause) : list frag :=
+  match k with Insert => [mk KAssign (clause_field c) [i]] | _ => clause_render i c end.
+Definition part_render (k : skind) (l : list (Z * clause)) : list frag :=
+  flat_map (fun ic => clause_render_in k (fst ic) (snd ic)) l.
 Definition part_ctx (l : list (Z * clause)) : list (Z * val) := flat_map (fun ic => clause_ctx (fst ic) (snd ic)) l.
 
 (* str(statement), as the list of its clause-bearing parts *)
 Definition render (s : stmt) : list (part * list frag) :=
-  map (fun p => (p, part_render (get_part p s))) (render_parts (sk s)).
+  map (fun p => (p, part_render (sk s) (get_part p s))) (render_parts (sk s)).
 (* all dict writes of get_context(), in order *)
 Definition ctx_writes (s : stmt) : list (Z * val) :=
   flat_map (fun p => part_ctx (get_part p s)) (ctx_parts (sk s)).
